@@ -25,19 +25,21 @@ def blockSpec (capsAt : Nat → Option Caps) (names : List (Bytes × Nat)) (hay 
   replaceAllSpec hay (fun c => expand (envOf hay names c) tmpl) (kept capsAt hay rs re atEnd) rs (min hay.length re)
 
 /-- **The replacement buffer of a block.** For every sane matcher, block `[rs, re)` and template (reference grammar
-guard `braceOk`, as in C19): if no kept match ends beyond the block, `replace_all` does not abort and its buffer is
-the replace-all of the block over the matches the printer keeps; one expansion offset is recorded per kept match. -/
+guard `braceOk`, as in C19), the buffer of `replace_all` is the replace-all of the block over the matches the
+printer keeps, and one expansion offset is recorded per kept match. No guard on the matches: since the repair of
+F18 (55c3d7e) a kept match that reaches beyond the block — possible through the look-ahead cut — is the last one
+replaced and the copy stops at the end of the block. -/
 theorem C19_multi_buffer (sc : SCfg) (capsAtOf : Bytes → Nat → Option Caps) (names : List (Bytes × Nat))
     (buf : Bytes) (rs re : Nat) (tmpl : Bytes) (hay : Bytes) (hhay : hay = cutHaystack sc buf re)
-    (hs : Sane (capsAtOf hay) hay.length) (hrs : rs ≤ min hay.length re)
-    (hg : NoMatchBeyond (capsAtOf hay) hay rs re (isAtUnterminatedEnd sc.lt hay rs re))
+    (hs : Sane (capsAtOf hay) hay.length)
     (hok : braceOk tmpl = true) (henv : ∀ c, EnvOk (envOf hay names c)) :
-    ∃ st, replaceAllMulti sc capsAtOf names buf rs re tmpl = some st ∧
-      st.dst = blockSpec (capsAtOf hay) names hay rs re (isAtUnterminatedEnd sc.lt hay rs re) tmpl ∧
-      st.spans.length = (kept (capsAtOf hay) hay rs re (isAtUnterminatedEnd sc.lt hay rs re)).length := by
+    (replaceAllMulti sc capsAtOf names buf rs re tmpl).dst =
+      blockSpec (capsAtOf hay) names hay rs re (isAtUnterminatedEnd sc.lt hay rs re) tmpl ∧
+    (replaceAllMulti sc capsAtOf names buf rs re tmpl).spans.length =
+      (kept (capsAtOf hay) hay rs re (isAtUnterminatedEnd sc.lt hay rs re)).length := by
   subst hhay
-  obtain ⟨st, h1, h2, h3⟩ := replaceAllMulti_eq sc capsAtOf names buf rs re tmpl hs hrs hg
-  refine ⟨st, h1, ?_, h3⟩
+  obtain ⟨h2, h3⟩ := replaceAllMulti_eq sc capsAtOf names buf rs re tmpl hs
+  refine ⟨?_, h3⟩
   rw [h2]
   unfold blockSpec
   have hexp : (fun c => interpolate (envOf (cutHaystack sc buf re) names c) tmpl) =
@@ -47,23 +49,22 @@ theorem C19_multi_buffer (sc : SCfg) (capsAtOf : Bytes → Nat → Option Caps) 
 
 /-- **C19 under -U, any printer configuration** (no `--only-matching`, no `--vimgrep`): when at least one match is
 kept, the block is printed from its replaced text, line by line; every line is a record of its own (line number
-`ln + i`, on every line the column of the first expansion), a missing terminator completed. Guards: no kept match
-ends beyond the block; under `--crlf` no line of the replaced text ends in a bare LF (finding F19). -/
+`ln + i`, on every line the column of the first expansion), a missing terminator completed. Guard: under `--crlf`
+no line of the replaced text ends in a bare LF (finding F19). -/
 theorem C19_multi_records (sc : SCfg) (c : StdCfg) (capsAtOf : Bytes → Nat → Option Caps)
     (names : List (Bytes × Nat)) (buf : Bytes) (rs re absOff : Nat) (ln : Option Nat) (tmpl : Bytes)
     (hay : Bytes) (hhay : hay = cutHaystack sc buf re)
     (hml : sc.multiLine = true) (ho : c.onlyMatching = false) (hp : c.perMatch = false)
-    (hs : Sane (capsAtOf hay) hay.length) (hrs : rs ≤ min hay.length re)
-    (hg : NoMatchBeyond (capsAtOf hay) hay rs re (isAtUnterminatedEnd sc.lt hay rs re))
+    (hs : Sane (capsAtOf hay) hay.length)
     (hk : kept (capsAtOf hay) hay rs re (isAtUnterminatedEnd sc.lt hay rs re) ≠ [])
     (hok : braceOk tmpl = true) (henv : ∀ c, EnvOk (envOf hay names c))
     (hcrlf : (splitLines sc.lt.asByte
       (blockSpec (capsAtOf hay) names hay rs re (isAtUnterminatedEnd sc.lt hay rs re) tmpl)).all (crlfLineOk sc.lt) = true) :
     ∃ k, printReplacedBlock sc c capsAtOf names buf rs re absOff ln tmpl =
-      some ((blockRecords sc.lt c absOff ln (optIf c.column k) 0 0
+      (blockRecords sc.lt c absOff ln (optIf c.column k) 0 0
         (splitLines sc.lt.asByte
           (blockSpec (capsAtOf hay) names hay rs re (isAtUnterminatedEnd sc.lt hay rs re) tmpl))).flatMap
-        (printRecord c)) := by
+        (printRecord c) := by
   subst hhay
   have hexp : (fun c => interpolate (envOf (cutHaystack sc buf re) names c) tmpl) =
       fun c => expand (envOf (cutHaystack sc buf re) names c) tmpl := by
@@ -73,7 +74,7 @@ theorem C19_multi_records (sc : SCfg) (c : StdCfg) (capsAtOf : Bytes → Nat →
         (isAtUnterminatedEnd sc.lt (cutHaystack sc buf re) rs re) tmpl := by
     unfold replacedText blockSpec
     rw [hexp]
-  have := printReplacedBlock_eq sc c capsAtOf names buf rs re absOff ln tmpl hml ho hp hs hrs hg hk
+  have := printReplacedBlock_eq sc c capsAtOf names buf rs re absOff ln tmpl hml ho hp hs hk
     (by rw [htxt]; exact hcrlf)
   rw [htxt] at this
   exact this
@@ -85,17 +86,16 @@ theorem C19_multi (sc : SCfg) (c : StdCfg) (capsAtOf : Bytes → Nat → Option 
     (hay : Bytes) (hhay : hay = cutHaystack sc buf re)
     (hml : sc.multiLine = true) (ho : c.onlyMatching = false) (hp : c.perMatch = false)
     (hpath : c.path = none) (hcol : c.column = false) (hboff : c.byteOffset = false)
-    (hs : Sane (capsAtOf hay) hay.length) (hrs : rs ≤ min hay.length re)
-    (hg : NoMatchBeyond (capsAtOf hay) hay rs re (isAtUnterminatedEnd sc.lt hay rs re))
+    (hs : Sane (capsAtOf hay) hay.length)
     (hk : kept (capsAtOf hay) hay rs re (isAtUnterminatedEnd sc.lt hay rs re) ≠ [])
     (hok : braceOk tmpl = true) (henv : ∀ c, EnvOk (envOf hay names c))
     (hcrlf : (splitLines sc.lt.asByte
       (blockSpec (capsAtOf hay) names hay rs re (isAtUnterminatedEnd sc.lt hay rs re) tmpl)).all (crlfLineOk sc.lt) = true) :
     printReplacedBlock sc c capsAtOf names buf rs re absOff none tmpl =
-      some ((splitLines sc.lt.asByte
+      (splitLines sc.lt.asByte
         (blockSpec (capsAtOf hay) names hay rs re (isAtUnterminatedEnd sc.lt hay rs re) tmpl)).flatMap
-        (completed sc.lt)) := by
-  obtain ⟨k, hk'⟩ := C19_multi_records sc c capsAtOf names buf rs re absOff none tmpl hay hhay hml ho hp hs hrs hg hk
+        (completed sc.lt) := by
+  obtain ⟨k, hk'⟩ := C19_multi_records sc c capsAtOf names buf rs re absOff none tmpl hay hhay hml ho hp hs hk
     hok henv hcrlf
   rw [hk', blockRecords_plain sc.lt c absOff k hpath hcol hboff]
 
@@ -105,32 +105,24 @@ the replace loop skips). -/
 theorem C19_multi_unreplaced (sc : SCfg) (c : StdCfg) (capsAtOf : Bytes → Nat → Option Caps)
     (names : List (Bytes × Nat)) (buf : Bytes) (rs re absOff : Nat) (ln : Option Nat) (tmpl : Bytes)
     (hs : Sane (capsAtOf (cutHaystack sc buf re)) (cutHaystack sc buf re).length)
-    (hrs : rs ≤ min (cutHaystack sc buf re).length re)
     (hk : kept (capsAtOf (cutHaystack sc buf re)) (cutHaystack sc buf re) rs re
       (isAtUnterminatedEnd sc.lt (cutHaystack sc buf re) rs re) = []) :
     printReplacedBlock sc c capsAtOf names buf rs re absOff ln tmpl =
-      some (sinkBody sc c { bytes := slice buf rs re, absOff, lineNo := ln, ctx := none
-                          , ms := shiftSpans rs (findIterInContext sc (findOf capsAtOf) buf rs re) }) := by
-  obtain ⟨st, h1, _, h3⟩ := replaceAllMulti_eq sc capsAtOf names buf rs re tmpl hs hrs
-    (by intro c hc; rw [hk] at hc; simp at hc)
+      sinkBody sc c { bytes := slice buf rs re, absOff, lineNo := ln, ctx := none
+                    , ms := shiftSpans rs (findIterInContext sc (findOf capsAtOf) buf rs re) } := by
+  obtain ⟨_, h3⟩ := replaceAllMulti_eq sc capsAtOf names buf rs re tmpl hs
   rw [hk] at h3
-  have : st.spans.isEmpty = true := by
-    have : st.spans = [] := List.length_eq_zero_iff.mp (by simpa using h3)
+  have : (replaceAllMulti sc capsAtOf names buf rs re tmpl).spans.isEmpty = true := by
+    have : (replaceAllMulti sc capsAtOf names buf rs re tmpl).spans = [] :=
+      List.length_eq_zero_iff.mp (by simpa using h3)
     simp [this]
   unfold printReplacedBlock
-  simp [h1, sunkOf, this]
+  simp [sunkOf, this]
 
-/-! ## The guards are forced -/
-
-/-- Full statement "`replace_all` never aborts in multi-line mode", for every sane matcher and well-formed block. -/
-def C19_multi_total_full : Prop :=
-  ∀ (sc : SCfg) (capsAtOf : Bytes → Nat → Option Caps) (names : List (Bytes × Nat)) (buf : Bytes) (rs re : Nat)
-    (tmpl : Bytes), sc.multiLine = true → rs ≤ re → re ≤ buf.length →
-    Sane (capsAtOf (cutHaystack sc buf re)) (cutHaystack sc buf re).length →
-    replaceAllMulti sc capsAtOf names buf rs re tmpl ≠ none
+/-! ## A kept match may reach beyond the block (look-ahead cut): regression of F18 -/
 
 /-- a matcher whose match from the start of the block `a\\n` of `a\\nb\\n` ends in the next line — what the printer
-sees when the look-ahead cut lets `\\z` match where the searcher saw no match (`(?s)a.{129}\\z|a`, finding F18) -/
+sees when the look-ahead cut lets `\\z` match where the searcher saw no match (`(?s)a.{129}\\z|a`) -/
 def beyondBlockMatcher : Bytes → Nat → Option Caps :=
   fun _ p => if p == 0 then some ⟨[some ⟨0, 3⟩]⟩ else none
 
@@ -150,31 +142,33 @@ theorem beyondBlockMatcher_sane (hay : Bytes) (h : 3 ≤ hay.length) : Sane (bey
       subst this; rfl
     · simp at hc
 
-/-- FALSE on the current tree (F18 family; `rg -U -r X '(?s)a.{129}\\z|a'` on `a\\n` + 128×`b` + `\\n` + 300×`c` + `\\n`
-panics at util.rs "slice index starts at 130 but ends at 2"): a kept match that ends beyond the block makes the
-final `&bytes[last_match..end]` of `replace_with_captures_in_context` an invalid slice. -/
-theorem C19_multi_total_full_fails : ¬ C19_multi_total_full := by
-  intro h
-  have := h { multiLine := true } beyondBlockMatcher [] [97, 10, 98, 10] 0 2 [88] rfl (by omega) (by decide)
-    (beyondBlockMatcher_sane _ (by decide))
-  apply this
+/-- Regression witness for F18 (repaired by 55c3d7e; before it the code panicked here, `rg -U -r X
+'(?s)a.{129}\\z|a'` on `a\\n` + 128×`b` + `\\n` + 300×`c` + `\\n`): the kept match `[0,3)` ends beyond the block `[0,2)`;
+the buffer is the expansion alone and the block prints as `X\\n` — all hypotheses of `C19_multi_buffer` hold. -/
+example :
+    Sane (beyondBlockMatcher [97, 10, 98, 10]) 4 ∧
+    (replaceAllMulti { multiLine := true } beyondBlockMatcher [] [97, 10, 98, 10] 0 2 [88]).dst = [88] ∧
+    printReplacedBlock { multiLine := true } {} beyondBlockMatcher [] [97, 10, 98, 10] 0 2 0 none [88] = [88, 10] := by
   have hI : ∀ env, interpolate env [88] = [88] := fun env => Props.C19.interpolate_no_dollar env [88] (by decide)
-  unfold replaceAllMulti replaceWithCapturesInContext
-  simp only [hI]
-  decide
+  refine ⟨beyondBlockMatcher_sane _ (by decide), ?_, ?_⟩
+  · unfold replaceAllMulti replaceWithCapturesInContext
+    simp only [hI]
+    decide
+  · unfold printReplacedBlock replaceAllMulti replaceWithCapturesInContext
+    simp only [hI]
+    decide
+
+/-! ## The CRLF guard is forced -/
 
 /-- Full statement of `C19_multi` without the CRLF guard. -/
 def C19_multi_crlf_full : Prop :=
   ∀ (sc : SCfg) (capsAtOf : Bytes → Nat → Option Caps) (names : List (Bytes × Nat)) (buf : Bytes) (rs re : Nat)
     (tmpl : Bytes), sc.multiLine = true →
     Sane (capsAtOf (cutHaystack sc buf re)) (cutHaystack sc buf re).length →
-    rs ≤ min (cutHaystack sc buf re).length re →
-    NoMatchBeyond (capsAtOf (cutHaystack sc buf re)) (cutHaystack sc buf re) rs re
-      (isAtUnterminatedEnd sc.lt (cutHaystack sc buf re) rs re) →
     kept (capsAtOf (cutHaystack sc buf re)) (cutHaystack sc buf re) rs re
       (isAtUnterminatedEnd sc.lt (cutHaystack sc buf re) rs re) ≠ [] →
     printReplacedBlock sc {} capsAtOf names buf rs re 0 none tmpl =
-      some ((splitLines sc.lt.asByte (replacedText sc capsAtOf names buf rs re tmpl)).flatMap (completed sc.lt))
+      (splitLines sc.lt.asByte (replacedText sc capsAtOf names buf rs re tmpl)).flatMap (completed sc.lt)
 
 /-- the matcher of the pattern `a` on `a\\nb\\n` -/
 def firstByteMatcher : Bytes → Nat → Option Caps :=
@@ -205,11 +199,10 @@ theorem C19_multi_crlf_full_fails : ¬ C19_multi_crlf_full := by
       (isAtUnterminatedEnd LineTerm.crlf [97, 10, 98, 10] 0 4) = [⟨[some ⟨0, 1⟩]⟩] := by decide
   have hcut : cutHaystack { lt := .crlf, multiLine := true } [97, 10, 98, 10] 4 = [97, 10, 98, 10] := by decide
   have := h { lt := .crlf, multiLine := true } firstByteMatcher [] [97, 10, 98, 10] 0 4 [88] rfl
-    (by rw [hcut]; exact firstByteMatcher_sane _ (by decide)) (by rw [hcut]; decide)
-    (by rw [hcut]; intro c hc; simp only at hc; rw [hkept] at hc; simp only [List.mem_singleton] at hc; subst hc; decide)
+    (by rw [hcut]; exact firstByteMatcher_sane _ (by decide))
     (by rw [hcut]; simp only; rw [hkept]; simp)
   have hlhs : printReplacedBlock { lt := .crlf, multiLine := true } {} firstByteMatcher [] [97, 10, 98, 10] 0 4 0 none [88]
-      = some [88, 13, 10, 98, 13, 10] := by
+      = [88, 13, 10, 98, 13, 10] := by
     unfold printReplacedBlock replaceAllMulti replaceWithCapturesInContext
     simp only [hI]
     decide
@@ -234,7 +227,7 @@ example :
     kept (firstByteMatcher [97, 10, 98, 10]) [97, 10, 98, 10] 0 4 (isAtUnterminatedEnd (.byte 10) [97, 10, 98, 10] 0 4)
       = [⟨[some ⟨0, 1⟩]⟩] ∧
     printReplacedBlock { multiLine := true } {} firstByteMatcher [] [97, 10, 98, 10] 0 4 0 none [88]
-      = some [88, 10, 98, 10] := by
+      = [88, 10, 98, 10] := by
   refine ⟨firstByteMatcher_sane _ (by decide), by decide, ?_⟩
   have hI : ∀ env, interpolate env [88] = [88] := fun env => Props.C19.interpolate_no_dollar env [88] (by decide)
   unfold printReplacedBlock replaceAllMulti replaceWithCapturesInContext
